@@ -21,7 +21,7 @@ RULE = ("cases = C12-style populations (parameterised covergroup class => severa
         ">=2 instances, and a report is taken mid-history and again at the end; distinct = distinct canonical case")
 ASSUMPTIONS = [
     "XML writer/reader and percentage arithmetic live in PyUCIS (outside /repo): after read-back only names and counts are compared",
-    "instance names: compared exactly when the case assigns unique names via set_name, otherwise only uniqueness and count",
+    "instance names: compared exactly when the case assigns unique names via set_name (at creation and again later in the history), otherwise only uniqueness and count",
     "report percentages compared with tolerance 1e-3 (model) / 0.006 (text, printed with 2 decimals)",
 ]
 
@@ -79,6 +79,8 @@ def cases(d):
             ninst += 1
         elif r < 30:
             ops.append(["report", d.choice(["model", "text", "xml"])])
+        elif named and r < 38:
+            ops.append(["rename", d.randint(0, ninst - 1), k])        # set_name after build: reports show the name of that moment
         else:
             ops.append(["sample", d.randint(0, ninst - 1), d.choice([3, 14, 15, 0, 1, 5, 9]) if d.chance(35) else d.randint(0, 15),
                         d.randint(0, 15)])
@@ -278,6 +280,7 @@ def run_case(case):
         return [V("library_exception", "construction: " + exc_sig(e), case, repr(e)[:200])], {}
     model = Model(case)
     objs = []
+    inst_names = []
     info = {"reports": 0, "mid_report": False, "excl_hits": False}
     tmpd = None
     try:
@@ -289,12 +292,19 @@ def run_case(case):
                     o = ns["CG"](v[0], v[1])
                     if case["named"]:
                         o.set_name("inst%d" % len(objs))
+                        inst_names.append("inst%d" % len(objs))
                     objs.append(o)
                     model.new(v)
                     continue
                 if op[0] == "sample":
                     objs[op[1]].sample(op[2], op[3])
                     model.sample(op[1], op[2], op[3])
+                    continue
+                if op[0] == "rename":
+                    if case["named"] and op[1] < len(objs):
+                        inst_names[op[1]] = "inst%d_r%d" % (op[1], op[2])
+                        objs[op[1]].set_name(inst_names[op[1]])
+                        info["renames"] = info.get("renames", 0) + 1
                     continue
                 # ---- report point
                 before = snapshot(objs, has_cross)
@@ -374,7 +384,7 @@ def run_case(case):
                     if nm in seen_names:
                         return [V("report_structure", "duplicate instance name (%s)" % kind, case, "%s: %r" % (where, nm))], info
                     seen_names.add(nm)
-                    if case["named"] and nm != "inst%d" % i:
+                    if case["named"] and nm != inst_names[i]:
                         return [V("report_content", "instance name (%s)" % kind, case,
                                   "%s: instance %d reported as %r" % (where, i, nm))], info
                 # percentages (not for the XML read-back: PyUCIS arithmetic)
